@@ -421,7 +421,7 @@ def gen_rtag(rng, n):
             while a or b:
                 src = a if (a and (not b or rng.random() < 0.5)) else b
                 items.append(src.pop(0))
-        L.append("srcv3 %d %d %d %d %d %d %s" % (rng.choice([0, 0, szx]), lens[0], seeds[0], lens[1], seeds[1], rng.randrange(2), ",".join(items)))
+        L.append("srcv3 %d %d %d %d %d %d %s" % (rng.choice([0, 0, szx, max(0, szx - 1), 6]), lens[0], seeds[0], lens[1], seeds[1], rng.randrange(2), ",".join(items)))
     return L
 
 
